@@ -402,6 +402,9 @@ func (f *Frame) loopSpec(li *LoopInfo) *LoopSpec {
 		}
 		// requires clauses labelled inv:... are object invariants: they are also
 		// loop invariants of every loop of the function
+		if f.e.con.NoTermAll {
+			ls.NoTerm = true
+		}
 		for _, r := range f.e.con.Requires {
 			if strings.HasPrefix(r.Label, "inv:") {
 				ls.Invariants = append(append([]Clause{}, ls.Invariants...), r)
